@@ -828,3 +828,46 @@ Q(name="e2_header_decode_advance", props=["C03", "C10"], func=r"packet\.rs:548:1
   functions=["ProtectedHeader::decode"], pre=lambda c: "true", post=hd_post, allowed_panics=r"attempt to",
   bounds="every path of the invariant-header decoder (all header forms): each Buf::advance(n) is dominated by n <= remaining() read from the same cursor immediately before (contract of Buf::advance: panics iff n > remaining()); field reads are opaque; arithmetic-overflow panics are not decided by this query",
   replay=("packet_header_decode_bounds_native", lambda m: [dict(first=0xc0), dict(first=0xd0), dict(first=0xe0), dict(first=0xf0), dict(first=0x40)]))
+
+
+# ------------------------------------------------------------------ C05 / C06 / C13 / C08: the peer's transport parameters reach the mechanisms that enforce them
+TP_INTS = ["max_idle_timeout", "max_udp_payload_size", "initial_max_data", "initial_max_stream_data_bidi_local", "initial_max_stream_data_bidi_remote",
+           "initial_max_stream_data_uni", "initial_max_streams_bidi", "initial_max_streams_uni", "ack_delay_exponent", "max_ack_delay", "active_connection_id_limit"]
+
+
+def spp_post(c, p):
+    st = p.p.state
+    conj = []
+    sp = p.called(r"StreamsState::set_params$")
+    if len(sp) != 1 or sp[0][1][1] != ("ref", "_2"):
+        return "false"                      # the stream limits are taken from the received parameters
+    PP = "*_1.%d" % c.field("connection/mod.rs", "Connection", "peer_params")
+    for n in TP_INTS:
+        i = tp_field(c, n)
+        conj.append(eq(c.ex.read_key(st, "%s.%d.0" % (PP, i), BV64).t, c.inp("_2.%d.0" % i, BV64)))
+    # the peer's max_udp_payload_size caps MTU discovery (values beyond u16 saturate)
+    mt = p.called(r"on_peer_max_udp_payload_size_received$")
+    if len(mt) != 1 or mt[0][1][1][0] != "val":
+        return "false"
+    v = c.inp("_2.%d.0" % tp_field(c, "max_udp_payload_size"), BV64)
+    want = ite("(bvugt %s %s)" % (v, bv(65535)), bv(65535, 16), "((_ extract 15 0) %s)" % v)
+    conj.append(eq(mt[0][1][1][1].t, want))
+    want_ref = "*_1.%d.%d" % (c.field("connection/mod.rs", "Connection", "path"), _pd(c, "mtud"))
+    if mt[0][1][0] != ("ref", want_ref):
+        return "false"
+    # the idle timeout is negotiated against the peer's max_idle_timeout
+    ng = p.called(r"negotiate_max_idle_timeout$")
+    if len(ng) != 1:
+        return "false"
+    snap = _Snap(st, st.store)
+    b = ng[0][1][1]
+    conj.append(eq(c.ex.read_key(st, b[1] + "#discr", I64).t, bv(1)))
+    conj.append(eq(c.ex.read_key(st, b[1] + "@Some.0.0", BV64).t, c.inp("_2.%d.0" % tp_field(c, "max_idle_timeout"), BV64)))
+    return and_(*conj)
+
+
+Q(name="e2_set_peer_params", props=["C05", "C06", "C13", "C08"], func=r"connection/mod\.rs:245:1[^>]*>::set_peer_params$",
+  pure=[r"negotiate_max_idle_timeout$", r"get_max_ack_delay$"], inline=[r"VarInt::into_inner$"], allowed_panics=r"expect",
+  functions=["Connection::set_peer_params"], pre=lambda c: "true", post=spp_post,
+  bounds="every received parameter set: all eleven integer parameters are stored unchanged, StreamsState::set_params gets the received set, MTU discovery is told min(max_udp_payload_size, 65535), the idle timeout is negotiated against the received max_idle_timeout; callees opaque (covered by streams / mtud / negotiate_idle obligations)",
+  replay=("conn_set_peer_params_native", lambda m: [dict(mups=1200), dict(mups=1452), dict(mups=65535), dict(mups=65536), dict(mups=70000)]))
